@@ -1141,6 +1141,11 @@ class Duration(AnyAtomicType):
         if not isinstance(other, self.__class__):
             raise TypeError("wrong type %r for operand %r" % (type(other), other))
 
+        if self.months == other.months:
+            return op(self.seconds, other.seconds)  # exact, no datetime.timedelta range limit
+        elif self.seconds == other.seconds:
+            return op(self.months, other.months)
+
         m1, s1 = self.months, int(self.seconds)
         m2, s2 = other.months, int(other.seconds)
         ms1, ms2 = int((self.seconds - s1) * 1000000), int((other.seconds - s2) * 1000000)
